@@ -23,36 +23,35 @@ theorem dispatchSt_cmd (tbl : TxnTable) (m : Msg) (hty : m.hdr.ty = 20) (hne : m
   have h2 : Gen.Rtmp.decodeMessageArm 20 = .parseAMFObject := by decide
   simp only [h1, h2, Bool.false_eq_true, if_false]
 
-/-- `parseAMFObject` on a payload that starts with a command name and a transaction id. -/
-theorem parse_cmd (tbl : TxnTable) (name : Bytes) (hn : name.length ≤ 65535) (tid : UInt64) (tl : Bytes) :
+/-- `parseAMFObject` on a payload that starts with a response name and a transaction id. -/
+theorem parse_cmd_resp (tbl : TxnTable) (name : Bytes) (hn : name.length ≤ 65535) (tid : UInt64) (tl : Bytes)
+    (hr : Gen.Rtmp.parseCommandArm name = .response) :
     parseAMFObject tbl (encode (.str name) ++ (encode (.num tid) ++ tl)) =
-      match Gen.Rtmp.parseCommandArm name with
-      | .response =>
-        match tbl.find tid with
-        | none => (.err .generic, tbl)
-        | some req =>
-          match Gen.Rtmp.parseResponseArm req with
-          | .NewConnectAppResPacket => (.ok .connectRes, tbl.erase tid)
-          | .NewCreateStreamResPacket => (.ok .createStreamRes, tbl.erase tid)
-          | .rejected => (.err .generic, tbl.erase tid)
-      | .NewConnectAppPacket => (.ok .connect, tbl)
-      | .NewPublishPacket => (.ok .publish, tbl)
-      | .NewCallPacket => (.ok .call, tbl) := by
+      match tbl.find tid with
+      | none => (.err .generic, tbl)
+      | some req => ctorResult (Gen.Rtmp.parseResponseArm req) (tbl.erase tid) := by
+  unfold parseAMFObject
+  rw [strDec_enc hn]
+  simp only [hr]
+  rw [slice_enc]; simp only [Res.bind_ok]
+  rw [numDec_enc]
+  simp only []
+  cases tbl.find tid <;> rfl
+
+/-- … and with any other command name. -/
+theorem parse_cmd_other (tbl : TxnTable) (name : Bytes) (hn : name.length ≤ 65535) (tl : Bytes)
+    (hr : Gen.Rtmp.parseCommandArm name ≠ .response) :
+    parseAMFObject tbl (encode (.str name) ++ tl) = ctorResult (Gen.Rtmp.parseCommandArm name) tbl := by
   unfold parseAMFObject
   rw [strDec_enc hn]
   simp only []
-  cases Gen.Rtmp.parseCommandArm name with
-  | response =>
-    simp only []
-    rw [slice_enc]; simp only [Res.bind_ok]
-    rw [numDec_enc]
-    simp only []
-    cases tbl.find tid with
-    | none => rfl
-    | some req => simp only []; cases Gen.Rtmp.parseResponseArm req <;> rfl
-  | NewConnectAppPacket => rfl
-  | NewPublishPacket => rfl
-  | NewCallPacket => rfl
+
+theorem ctorResult_some {c : Gen.Rtmp.Ctor} {k : Kind} (h : ctorKind c = some k) (tbl : TxnTable) :
+    ctorResult c tbl = (.ok k, tbl) := by
+  simp [ctorResult, h]
+
+theorem not_response_of_kind {c : Gen.Rtmp.Ctor} {k : Kind} (h : ctorKind c = some k) : c ≠ .response := by
+  intro e; rw [e] at h; cases h
 
 /-! ### the dispatch table, row by row -/
 
@@ -67,19 +66,19 @@ inductive Arrives (tbl : TxnTable) : Packet → Packet → TxnTable → Prop whe
   | setPeerBw (v l : Nat) : Arrives tbl (.setPeerBw v l) (.setPeerBw v l) tbl
   | userControl (e d x : Nat) : Arrives tbl (.userControl e d x) (.userControl e d x) tbl
   | connect (c : ObjCall) : Arrives tbl (.connect c) (.connect c) tbl
-  | publish (c : VarCall) (sn st : Bytes) (hn : c.name = Gen.Rtmp.commandPublishBytes) :
+  | publish (c : VarCall) (sn st : Bytes) (hn : ctorKind (Gen.Rtmp.parseCommandArm c.name) = some .publish) :
       Arrives tbl (.publish c sn st) (.publish c sn st) tbl
   | connectRes (c : ObjCall) (req : Bytes) (hf : tbl.find c.tid = some req)
-      (hr : Gen.Rtmp.parseResponseArm req = .NewConnectAppResPacket) :
+      (hr : ctorKind (Gen.Rtmp.parseResponseArm req) = some .connectRes) :
       Arrives tbl (.connectRes c) (.connectRes c) (tbl.erase c.tid)
   | createStreamRes (c : VarCall) (sid : UInt64) (req : Bytes) (hn : Gen.Rtmp.parseCommandArm c.name = .response)
-      (hf : tbl.find c.tid = some req) (hr : Gen.Rtmp.parseResponseArm req = .NewCreateStreamResPacket) :
+      (hf : tbl.find c.tid = some req) (hr : ctorKind (Gen.Rtmp.parseResponseArm req) = some .createStreamRes) :
       Arrives tbl (.createStreamRes c sid) (.createStreamRes c sid) (tbl.erase c.tid)
-  | createStream (c : VarCall) (hn : Gen.Rtmp.parseCommandArm c.name = .NewCallPacket) :
+  | createStream (c : VarCall) (hn : ctorKind (Gen.Rtmp.parseCommandArm c.name) = some .call) :
       Arrives tbl (.createStream c) (.call c none) tbl
-  | play (c : VarCall) (sn : Bytes) (hn : Gen.Rtmp.parseCommandArm c.name = .NewCallPacket) :
+  | play (c : VarCall) (sn : Bytes) (hn : ctorKind (Gen.Rtmp.parseCommandArm c.name) = some .call) :
       Arrives tbl (.play c sn) (.call c (some (.str sn))) tbl
-  | call (c : VarCall) (a : Option Val) (hn : Gen.Rtmp.parseCommandArm c.name = .NewCallPacket) :
+  | call (c : VarCall) (a : Option Val) (hn : ctorKind (Gen.Rtmp.parseCommandArm c.name) = some .call) :
       Arrives tbl (.call c a) (.call c a) tbl
 
 theorem unmarshal_as (p q : Packet) (hq : q.wf = true) (hm : q.marshal = p.marshal) :
@@ -109,15 +108,46 @@ theorem dispatchSt_control (tbl : TxnTable) (m : Msg) (k : Kind) (hne : m.payloa
   · have h1 : Gen.Rtmp.decodeMessageSkipsOneByte 1 = false := by decide
     have h2 : Gen.Rtmp.decodeMessageArm 1 = .NewSetChunkSize := by decide
     simp only [h1, h2, Bool.false_eq_true, if_false]
+    rfl
   · have h1 : Gen.Rtmp.decodeMessageSkipsOneByte 5 = false := by decide
     have h2 : Gen.Rtmp.decodeMessageArm 5 = .NewWindowAcknowledgementSize := by decide
     simp only [h1, h2, Bool.false_eq_true, if_false]
+    rfl
   · have h1 : Gen.Rtmp.decodeMessageSkipsOneByte 6 = false := by decide
     have h2 : Gen.Rtmp.decodeMessageArm 6 = .NewSetPeerBandwidth := by decide
     simp only [h1, h2, Bool.false_eq_true, if_false]
+    rfl
   · have h1 : Gen.Rtmp.decodeMessageSkipsOneByte 4 = false := by decide
     have h2 : Gen.Rtmp.decodeMessageArm 4 = .NewUserControl := by decide
     simp only [h1, h2, Bool.false_eq_true, if_false]
+    rfl
+
+theorem str_append_len_ne (name tl : Bytes) : (encode (.str name) ++ tl).length ≠ 0 := by
+  simp [encode]
+
+/-- A command whose name is not a response name: decoded by the constructor its arm names. -/
+theorem dispatch_cmd_other (tbl : TxnTable) (m : Msg) (hty : m.hdr.ty = 20) (name : Bytes) (hn : name.length ≤ 65535)
+    (tl : Bytes) (hpl : m.payload = encode (.str name) ++ tl) (k : Kind)
+    (hk : ctorKind (Gen.Rtmp.parseCommandArm name) = some k) :
+    dispatchSt tbl m = (unmarshal k m.payload, tbl) := by
+  rw [dispatchSt_cmd tbl m hty (by rw [hpl]; exact str_append_len_ne _ _)]
+  conv => lhs; arg 1; rw [hpl]
+  rw [parse_cmd_other tbl name hn tl (not_response_of_kind hk), ctorResult_some hk]
+  rfl
+
+/-- A response whose id has an outstanding request: decoded by the response constructor of that
+request; the entry is deleted. -/
+theorem dispatch_cmd_resp (tbl : TxnTable) (m : Msg) (hty : m.hdr.ty = 20) (name : Bytes) (hn : name.length ≤ 65535)
+    (tid : UInt64) (tl : Bytes) (hpl : m.payload = encode (.str name) ++ (encode (.num tid) ++ tl))
+    (hr : Gen.Rtmp.parseCommandArm name = .response) (req : Bytes) (hf : tbl.find tid = some req) (k : Kind)
+    (hk : ctorKind (Gen.Rtmp.parseResponseArm req) = some k) :
+    dispatchSt tbl m = (unmarshal k m.payload, tbl.erase tid) := by
+  rw [dispatchSt_cmd tbl m hty (by rw [hpl]; exact str_append_len_ne _ _)]
+  conv => lhs; arg 1; rw [hpl]
+  rw [parse_cmd_resp tbl name hn tid tl hr, hf]
+  simp only []
+  rw [ctorResult_some hk]
+  rfl
 
 /-- **Dispatch of a marshalled packet**: any message whose type is `p`'s `Type()` and whose payload is
 `p`'s marshalled bytes is decoded as the dispatch table says, to a packet that re-marshals to the same
@@ -148,49 +178,36 @@ theorem dispatchSt_arrives (tbl tbl' : TxnTable) (p q : Packet) (hp : p.wf = tru
     have hp' := hp
     simp only [Packet.wf, Bool.and_eq_true, decide_eq_true_eq] at hp'
     obtain ⟨⟨hc, hn⟩, _⟩ := hp'
-    rw [dispatchSt_cmd tbl m hty hne, hpl]
-    have : (Packet.connect c).marshal = encode (.str c.name) ++ (encode (.num c.tid) ++
-        (encode (.obj c.obj) ++ (match c.args with | some a => encode (.obj a) | none => []))) := rfl
-    rw [this, parse_cmd tbl c.name (ObjCall.wf_name hc), ← this, hn]
-    have harm : Gen.Rtmp.parseCommandArm Gen.Rtmp.commandConnectBytes = .NewConnectAppPacket := by decide
-    simp only [harm, decodeWith]
+    have hk : ctorKind (Gen.Rtmp.parseCommandArm c.name) = some .connect := by rw [hn]; decide
+    rw [dispatch_cmd_other tbl m hty c.name (ObjCall.wf_name hc) _ (by rw [hpl]; rfl) .connect hk, hpl]
     exact congrArg (·, tbl) (unmarshal_marshal (.connect c) hp)
   | publish c sn st hn =>
     refine ⟨?_, rfl⟩
     have hp' := hp
     simp only [Packet.wf, Bool.and_eq_true, decide_eq_true_eq] at hp'
     obtain ⟨⟨⟨hc, _⟩, _⟩, _⟩ := hp'
-    rw [dispatchSt_cmd tbl m hty hne, hpl]
-    have : (Packet.publish c sn st).marshal = encode (.str c.name) ++ (encode (.num c.tid) ++
+    have hform : (Packet.publish c sn st).marshal = encode (.str c.name) ++ (encode (.num c.tid) ++
         (optEnc c.obj ++ (encode (.str sn) ++ encode (.str st)))) := by
       simp only [Packet.marshal, VarCall.marshal, List.append_assoc]
-    rw [this, parse_cmd tbl c.name (VarCall.wf_name hc), ← this, hn]
-    have harm : Gen.Rtmp.parseCommandArm Gen.Rtmp.commandPublishBytes = .NewPublishPacket := by decide
-    simp only [harm, decodeWith]
+    rw [dispatch_cmd_other tbl m hty c.name (VarCall.wf_name hc) _ (by rw [hpl, hform]) .publish hn, hpl]
     exact congrArg (·, tbl) (unmarshal_marshal (.publish c sn st) hp)
   | connectRes c req hf hr =>
     refine ⟨?_, rfl⟩
     have hp' := hp
     simp only [Packet.wf, Bool.and_eq_true, decide_eq_true_eq] at hp'
     obtain ⟨hc, hn⟩ := hp'
-    rw [dispatchSt_cmd tbl m hty hne, hpl]
-    have : (Packet.connectRes c).marshal = encode (.str c.name) ++ (encode (.num c.tid) ++
-        (encode (.obj c.obj) ++ (match c.args with | some a => encode (.obj a) | none => []))) := rfl
-    rw [this, parse_cmd tbl c.name (ObjCall.wf_name hc), ← this, hn]
-    have harm : Gen.Rtmp.parseCommandArm Gen.Rtmp.commandResultBytes = .response := by decide
-    simp only [harm, hf, hr, decodeWith]
+    have harm : Gen.Rtmp.parseCommandArm c.name = .response := by rw [hn]; decide
+    rw [dispatch_cmd_resp tbl m hty c.name (ObjCall.wf_name hc) c.tid _ (by rw [hpl]; rfl) harm req hf .connectRes hr, hpl]
     exact congrArg (·, tbl.erase c.tid) (unmarshal_marshal (.connectRes c) hp)
   | createStreamRes c sid req hn hf hr =>
     refine ⟨?_, rfl⟩
     have hp' := hp
     simp only [Packet.wf, Bool.and_eq_true] at hp'
     obtain ⟨hc, _⟩ := hp'
-    rw [dispatchSt_cmd tbl m hty hne, hpl]
-    have : (Packet.createStreamRes c sid).marshal = encode (.str c.name) ++ (encode (.num c.tid) ++
+    have hform : (Packet.createStreamRes c sid).marshal = encode (.str c.name) ++ (encode (.num c.tid) ++
         (optEnc c.obj ++ encode (.num sid))) := by
       simp only [Packet.marshal, VarCall.marshal, List.append_assoc]
-    rw [this, parse_cmd tbl c.name (VarCall.wf_name hc), ← this]
-    simp only [hn, hf, hr, decodeWith]
+    rw [dispatch_cmd_resp tbl m hty c.name (VarCall.wf_name hc) c.tid _ (by rw [hpl, hform]) hn req hf .createStreamRes hr, hpl]
     exact congrArg (·, tbl.erase c.tid) (unmarshal_marshal (.createStreamRes c sid) hp)
   | createStream c hn =>
     have hc : c.wf = true := hp
@@ -198,10 +215,7 @@ theorem dispatchSt_arrives (tbl tbl' : TxnTable) (p q : Packet) (hp : p.wf = tru
     have hm : (Packet.call c none).marshal = (Packet.createStream c).marshal := by
       simp [Packet.marshal, optEnc]
     refine ⟨?_, hm⟩
-    rw [dispatchSt_cmd tbl m hty hne, hpl]
-    have : (Packet.createStream c).marshal = encode (.str c.name) ++ (encode (.num c.tid) ++ optEnc c.obj) := rfl
-    rw [this, parse_cmd tbl c.name (VarCall.wf_name hc), ← this]
-    simp only [hn, decodeWith]
+    rw [dispatch_cmd_other tbl m hty c.name (VarCall.wf_name hc) _ (by rw [hpl]; rfl) .call hn, hpl]
     exact congrArg (·, tbl) (unmarshal_as _ _ hq hm)
   | play c sn hn =>
     have hp' := hp
@@ -212,22 +226,18 @@ theorem dispatchSt_arrives (tbl tbl' : TxnTable) (p q : Packet) (hp : p.wf = tru
     have hm : (Packet.call c (some (.str sn))).marshal = (Packet.play c sn).marshal := by
       simp [Packet.marshal, optEnc]
     refine ⟨?_, hm⟩
-    rw [dispatchSt_cmd tbl m hty hne, hpl]
-    have : (Packet.play c sn).marshal = encode (.str c.name) ++ (encode (.num c.tid) ++ (optEnc c.obj ++ encode (.str sn))) := by
+    have hform : (Packet.play c sn).marshal = encode (.str c.name) ++ (encode (.num c.tid) ++ (optEnc c.obj ++ encode (.str sn))) := by
       simp only [Packet.marshal, VarCall.marshal, List.append_assoc]
-    rw [this, parse_cmd tbl c.name (VarCall.wf_name hc), ← this]
-    simp only [hn, decodeWith]
+    rw [dispatch_cmd_other tbl m hty c.name (VarCall.wf_name hc) _ (by rw [hpl, hform]) .call hn, hpl]
     exact congrArg (·, tbl) (unmarshal_as _ _ hq hm)
   | call c a hn =>
     refine ⟨?_, rfl⟩
     have hp' := hp
     simp only [Packet.wf, Bool.and_eq_true] at hp'
     obtain ⟨⟨hc, _⟩, _⟩ := hp'
-    rw [dispatchSt_cmd tbl m hty hne, hpl]
-    have : (Packet.call c a).marshal = encode (.str c.name) ++ (encode (.num c.tid) ++ (optEnc c.obj ++ optEnc a)) := by
+    have hform : (Packet.call c a).marshal = encode (.str c.name) ++ (encode (.num c.tid) ++ (optEnc c.obj ++ optEnc a)) := by
       simp only [Packet.marshal, VarCall.marshal, List.append_assoc]
-    rw [this, parse_cmd tbl c.name (VarCall.wf_name hc), ← this]
-    simp only [hn, decodeWith]
+    rw [dispatch_cmd_other tbl m hty c.name (VarCall.wf_name hc) _ (by rw [hpl, hform]) .call hn, hpl]
     exact congrArg (·, tbl) (unmarshal_marshal (.call c a) hp)
 
 /-! ### on the wire (composition with C01) -/
